@@ -907,6 +907,26 @@ def oracle(case, r):
                 if d != (not row.startswith("undo ")):
                     out.append(dict(sig="huawei:direct-flag-wrong", what="yield (%r, %r)" % (d, row)))
         return out
+    if k == "vdiff":
+        # vlan_diff: a named vlan block that disappears is reported REMOVED (-> `undo vlan N`) only if N is in no
+        # `vlan batch` line of the new configuration; otherwise the VLAN is in both sets and must stay
+        if "ok" not in r:
+            return []
+        batch_new = set()
+        for row, _ch in case["new"]:
+            rest = _strip_prefix(row, "vlan batch")
+            sset = read_h(rest) if rest is not None else None
+            if sset:
+                batch_new |= sset
+        out = []
+        for op, row, _has in r["ok"]:
+            t = row.split()
+            if str(op).lower().endswith("removed") and len(t) == 2 and t[0] == "vlan" and t[1].isdigit() and int(t[1]) in batch_new:
+                out.append(dict(sig="huawei:vlan-block-removed-although-in-new-batch",
+                                what="`%s` is reported REMOVED (command `undo %s`) although vlan %s is in a `vlan batch` line "
+                                     "of the new configuration %r" % (row, row, t[1], [x[0] for x in case["new"]])))
+                break
+        return out
     if k == "clb":
         if "err" in r:
             return [dict(sig="cisco:named:simple:raises-%s" % r["err"], what="logic raised %s on well-formed buckets %r" % (r["err"], case))]
